@@ -386,7 +386,7 @@ namespace ratio
             return new bool_item(*this, lra_th.new_gt(left->l, right->l));
     }
 
-    CORE_EXPORT bool_expr core::eq(expr left, expr right) noexcept { return new bool_item(*this, left->new_eq(*right)); }
+    CORE_EXPORT bool_expr core::eq(expr left, expr right) { return new bool_item(*this, left->new_eq(*right)); }
 
     CORE_EXPORT void core::assert_facts(const std::vector<lit> &facts)
     {
